@@ -265,10 +265,10 @@ class Output:
         self.kinds[kind] = list(names)
         for o in self.octs:
             o.vals[kind] = {v: [self.m.real(f"{o.tag}_{kind[0]}_{v}_{i}") for i in range(self.two)] for v in names}
-        if kind == "hydro" and "density" in names:
-            # provenance labels: the stored densities are pairwise distinct and non-zero
-            import numpy as _np
-            allv = [x for o in self.octs for x in o.vals[kind]["density"]]
+        # provenance labels: the stored values of each variable are pairwise distinct and non-zero
+        import numpy as _np
+        for v in names:
+            allv = [x for o in self.octs for x in o.vals[kind][v]]
             if self.m.symbolic:
                 from symx.arr import sarray
                 self.m.distinct(sarray(allv + [0.0], "float64"))
